@@ -5,7 +5,7 @@ import os
 import sys
 
 from mc import enum2d
-from mc.engine import scratch_dir
+from mc.engine import observe, scratch_dir
 from mc.props.common2d import build, call, info, seq_of, viol
 from mc.ref import ref2d
 
@@ -195,7 +195,27 @@ def run_case(case):
         pd = os.path.join(sd, "x.dbn")
         with open(pd, "w") as f:
             f.write(">x\n%s\n%s\n" % (seq, d.structure))
-        for argv in (["--bpseq", pb], ["--dbn", pd]):
+        # the same pairs written with other bracket levels than the library would choose (round and square brackets exchanged): a valid input
+        # notation; the tool must print its own notation and slice the strands from that one
+        pa = os.path.join(sd, "x-alt.dbn")
+        with open(pa, "w") as f:
+            f.write("%s\n%s\n" % (seq, d.structure.translate(str.maketrans("()[]", "[]()"))))
+        runs = [(["--bpseq", pb], b), (["--dbn", pd], b), (["--dbn", pa], b)]
+        if case["pairs"]:
+            # the two filters (isolated pairs first, then pseudoknots, as the tool applies them); the derivations themselves are C12's subject
+            for flags in (["--remove-isolated"], ["--remove-pseudoknots"], ["--remove-isolated", "--remove-pseudoknots"]):
+                def derive(flags=flags):
+                    x = build(case)
+                    if "--remove-isolated" in flags:
+                        x = x.without_isolated()
+                    if "--remove-pseudoknots" in flags:
+                        x = x.without_pseudoknots()
+                    return x
+                bx = call("derive" + "".join(flags), derive, out)
+                if bx is not None:
+                    runs.append((["--bpseq", pb] + flags, bx))
+                    runs.append((["--dbn", pa] + flags, bx))
+        for argv, bexp in runs:
             txt = call("motif_extractor.main", run_cli, out, argv)
             if txt is None:
                 continue
@@ -204,9 +224,17 @@ def run_case(case):
             except Exception as exc:  # noqa
                 out.append(viol("cli:unparsable", "motif_extractor output not parsable: %s" % exc, txt[:400], None))
                 continue
-            if hdr != ["Full dot-bracket:", seq, d.structure]:
-                out.append(viol("cli:header", "motif_extractor header differs", hdr, ["Full dot-bracket:", seq, d.structure]))
-            if _norm(ctup) != _norm(tup):
-                out.append(viol("cli:elements-differ", "motif_extractor prints other elements than BpSeq.elements", str(ctup)[:500], str(tup)[:500]))
+            if bexp is b:
+                dexp, texp = d.structure, tup
+            else:
+                r2 = observe(lambda: (bexp.dot_bracket.structure, elements_as_tuples(bexp.elements)))
+                if r2[0] == "exc":
+                    continue
+                dexp, texp = r2[1]
+            tag = "" if len(argv) == 2 else ":filters"
+            if hdr != ["Full dot-bracket:", seq, dexp]:
+                out.append(viol("cli:header" + tag, "motif_extractor %s: header differs" % " ".join(a for a in argv if a.startswith("--")), hdr, ["Full dot-bracket:", seq, dexp]))
+            if _norm(ctup) != _norm(texp):
+                out.append(viol("cli:elements-differ" + tag, "motif_extractor %s prints other elements than BpSeq.elements" % " ".join(a for a in argv if a.startswith("--")), str(ctup)[:500], str(texp)[:500]))
     nl = len(tup[3])
     return dict(nontrivial=bool(case["pairs"]), outcome="stems=%d hp=%d loops=%d ss=%d" % (min(len(tup[0]), 4), min(len(tup[2]), 3), min(nl, 3), min(len(tup[1]), 4)), violations=out)
